@@ -18,6 +18,16 @@ CHECKS["C16"] = ("vcheck", "proptest generators (names, text, related pairs/trip
     "Generated search with shrinking over six sub-checks: Display/FromStr round trip incl. an independent RFC 1035 §5.1 parser and printer, text acceptance, Eq/Hash/Ord/subdomain on related pairs, transitivity on triples, every accessor, NameBuilder histories with a state model.",
     "Trusts vmodel::name (unit-tested on the RFC 4034 §6.1 ordering example).", "§4 C16")
 
+CHECKS["C15"] = ("vcheck", "proptest message generator + byte mutator driving random reader call sequences, differential against a cursor model over an independent decoder",
+    "Generated search with shrinking: messages with compressed owners/RDATA of every known type, mutated by truncation, count changes, flips, insertions, injected pointers; up to 30 reader calls per message (read/skip question and RR, peek with owner/skip/parse/drop, mark/rewind, at_eom); after every call the read position, the returned fields and acceptance are compared with the model.",
+    "Trusts vmodel::wire/rdata. OPT TTL: raw or RFC 2181-clamped value accepted here (C09/C12 pin it).", "§4 C15")
+CHECKS["C18"] = ("vcheck", "proptest RDATA generators (valid, near-valid, arbitrary) for every known class/type, differential against RFC-derived validators and decoder, write->read round trip in all compression modes",
+    "Generated search with shrinking over three sub-checks: validate acceptance, Rdata::read with cursor/RDLENGTH perturbations against the independent decoder, and Writer->Reader round trip checked by both quandary's reader and the independent decoder.",
+    "Trusts vmodel::rdata (formats transcribed from the RFCs).", "§4 C18")
+CHECKS["C19"] = ("vcheck", "proptest families of related RDATA; all ordered pairs against a reference equality, all triples for transitivity, step-by-step model of RdataSetOwned",
+    "Generated search with shrinking: 2-9 variants of one base RDATA (case flips, junk, truncation, one-octet changes) for every name-bearing type in four classes; reflexivity, symmetry, transitivity, agreement with the reference, and set insertion order/return values.",
+    "Trusts vmodel::rdata::equal.", "§4 C19")
+
 NOT_YET = {}
 
 def main():
